@@ -510,7 +510,8 @@ def run(ctx):
     if nl:
         if not any(o['rule'] == 'R-LODSYM' and o['status'] == 'violated' for o in ctx.obligations):
             ctx.ok('R-LODSYM', 'lod blocks', wrd, '%d statements, each within its own limit' % nl)
-    ctx.floor('limit-of-detection statements', nl, 10)
+    # a prohibition (no statement of one limit uses names of the other): one shared helper for both limits satisfies it with fewer statements
+    ctx.floor('limit-of-detection statements', nl, 2)
     # ---- R-SCALELINE: the data are written unscaled, so the declared scale factors are all 1
     ctx.rule('R-SCALELINE', 'the scale-factor line declares 1 for every variable (the data block is written as it is), or the data are divided by the declared factor')
     sc_print = prints[consts['SCALE_LINE'] - 1]
